@@ -1,6 +1,6 @@
 /-
 Helper lemmas for C18: `convert_universal_chars` (Model/LineNo.lean `convertUCNAux`) keeps the line of every byte it keeps,
-provided no universal character name denotes U+000A.
+(it leaves `\\u000a` alone, so every '\\n' it writes is a copy of one it read).
 -/
 import ChibiVerif.Model.LineNo
 import ChibiVerif.Lemmas.LineNoLemmas
@@ -154,11 +154,11 @@ theorem convertUCNAux_lines (f : Nat) : ∀ (T : List Nat) (s : Nat),
           | succ k => simp at hk
         | cons b rest' =>
           by_cases hu : b = 117
-          · by_cases hc : readUniversalChar rest' 4 0 ≠ 0
+          · by_cases hc : readUniversalChar rest' 4 0 ≠ 0 ∧ readUniversalChar rest' 4 0 ≠ LF
             · have hout : convertUCNAux (f + 1) (a :: b :: rest') s
                   = (encodeUtf8 (readUniversalChar rest' 4 0)).map (·, s) ++ convertUCNAux f (rest'.drop 4) (s + 6) := by
                 simp [convertUCNAux, ha, hu, hc]
-              have hr := readUniversalChar_ne_zero rest' 4 0 hc
+              have hr := readUniversalChar_ne_zero rest' 4 0 hc.1
               rw [hout]
               apply linesKept_ucn _ _ _ _ 6
               · intro x hx hxl
@@ -174,11 +174,11 @@ theorem convertUCNAux_lines (f : Nat) : ∀ (T : List Nat) (s : Nat),
               apply ih
               exact sub 1 _ _ (by simp) (fun e he => by rw [hout]; simp [he]) rfl
           · by_cases hU : b = 85
-            · by_cases hc : readUniversalChar rest' 8 0 ≠ 0
+            · by_cases hc : readUniversalChar rest' 8 0 ≠ 0 ∧ readUniversalChar rest' 8 0 ≠ LF
               · have hout : convertUCNAux (f + 1) (a :: b :: rest') s
                     = (encodeUtf8 (readUniversalChar rest' 8 0)).map (·, s) ++ convertUCNAux f (rest'.drop 8) (s + 10) := by
                   simp [convertUCNAux, ha, hU, hc]
-                have hr := readUniversalChar_ne_zero rest' 8 0 hc
+                have hr := readUniversalChar_ne_zero rest' 8 0 hc.1
                 rw [hout]
                 apply linesKept_ucn _ _ _ _ 10
                 · intro x hx hxl
@@ -208,17 +208,104 @@ theorem convertUCNAux_lines (f : Nat) : ∀ (T : List Nat) (s : Nat),
         apply ih
         exact sub 1 _ _ (by simp) (fun e he => by rw [hout]; simp [he]) rfl
 
-/-- `convert_universal_chars`: if every '\n' it writes is a copy of a '\n' it read, then the byte at output offset `k`, which came
-    from input offset `e.2`, has as many '\n' before it in the output as its source had in the input -/
-theorem convertUCN_lines (T : List Nat) (h : noNewlineUCN T = true) (k : Nat) (e : Nat × Nat)
+theorem encodeUtf8_no_LF (c : Nat) (hc : c ≠ LF) : ∀ b ∈ encodeUtf8 c, b ≠ LF := by
+  intro b hb
+  unfold encodeUtf8 at hb
+  have h80 : ∀ x : Nat, 0x80 ||| x ≠ LF := fun x => by have := @Nat.left_le_or 0x80 x; simp only [LF]; omega
+  split at hb
+  · simp at hb; subst hb; exact hc
+  · split at hb
+    · simp at hb
+      rcases hb with rfl | rfl
+      · have := @Nat.left_le_or 0xC0 (c >>> 6); simp only [LF]; omega
+      · exact h80 _
+    · split at hb
+      · simp at hb
+        rcases hb with rfl | rfl | rfl
+        · have := @Nat.left_le_or 0xE0 (c >>> 12); simp only [LF]; omega
+        · exact h80 _
+        · exact h80 _
+      · simp at hb
+        rcases hb with rfl | rfl | rfl | rfl
+        · have h1 : (0xF0 ||| (c >>> 18)) % 256 = 0xF0 % 256 ||| (c >>> 18) % 256 := Nat.or_mod_two_pow (n := 8)
+          have h2 := @Nat.left_le_or (0xF0 % 256) ((c >>> 18) % 256)
+          simp only [LF]; omega
+        · exact h80 _
+        · exact h80 _
+        · exact h80 _
+
+/-- every '\n' the pass writes is a copy of a '\n' it read -/
+theorem convertUCNAux_copies (f : Nat) : ∀ (T : List Nat) (s : Nat) (e : Nat × Nat),
+    e ∈ convertUCNAux f T s → e.1 = LF → T[e.2 - s]? = some LF := by
+  induction f with
+  | zero => intro T s e h; simp [convertUCNAux] at h
+  | succ f ih =>
+    intro T s e h hl
+    cases T with
+    | nil => simp [convertUCNAux] at h
+    | cons a rest =>
+      have recur : ∀ (n : Nat), e ∈ convertUCNAux f ((a :: rest).drop n) (s + n) → (a :: rest)[e.2 - s]? = some LF := by
+        intro n he
+        have hge := convertUCNAux_ge f _ _ e he
+        have := ih _ _ e he hl
+        rw [List.getElem?_drop] at this
+        have e1 : n + (e.2 - (s + n)) = e.2 - s := by omega
+        rw [e1] at this; exact this
+      have here : e = (a, s) → (a :: rest)[e.2 - s]? = some LF := by
+        intro he; subst he; simp at hl ⊢; exact hl
+      simp only [convertUCNAux] at h
+      split at h
+      · split at h
+        · simp at h; exact here h
+        · rename_i b rest'
+          have here2 : e = (b, s + 1) → (a :: b :: rest')[e.2 - s]? = some LF := by
+            intro he; subst he; simp at hl ⊢; exact hl
+          split at h
+          · split at h
+            · rename_i hc
+              rcases List.mem_append.1 h with h | h
+              · simp at h; obtain ⟨x, hx, rfl⟩ := h
+                exact absurd hl (encodeUtf8_no_LF _ hc.2 x hx)
+              · exact recur 6 (by simpa using h)
+            · rcases List.mem_cons.1 h with h | h
+              · exact here h
+              · exact recur 1 (by simpa using h)
+          · split at h
+            · split at h
+              · rename_i hc
+                rcases List.mem_append.1 h with h | h
+                · simp at h; obtain ⟨x, hx, rfl⟩ := h
+                  exact absurd hl (encodeUtf8_no_LF _ hc.2 x hx)
+                · exact recur 10 (by simpa using h)
+              · rcases List.mem_cons.1 h with h | h
+                · exact here h
+                · exact recur 1 (by simpa using h)
+            · rcases List.mem_cons.1 h with h | h
+              · exact here h
+              · rcases List.mem_cons.1 h with h | h
+                · exact here2 h
+                · exact recur 2 (by simpa using h)
+      · rcases List.mem_cons.1 h with h | h
+        · exact here h
+        · exact recur 1 (by simpa using h)
+
+theorem noNewlineUCN_always (T : List Nat) : noNewlineUCN T = true := by
+  unfold noNewlineUCN convertUCN
+  apply List.all_eq_true.2
+  intro e he
+  by_cases hl : e.1 = LF
+  · have := convertUCNAux_copies _ _ _ e he hl
+    simp at this
+    simp [this]
+  · simp [hl]
+
+/-- `convert_universal_chars`: the byte at output offset `k`, which came from input offset `e.2`, has as many '\n' before it
+    in the output as its source had in the input -/
+theorem convertUCN_lines (T : List Nat) (k : Nat) (e : Nat × Nat)
     (hk : (convertUCN T)[k]? = some e) :
     countLF ((convertUniversalChars T).take k) = countLF (T.take e.2) := by
-  have hLF : ∀ e ∈ convertUCNAux (T.length + 1) T 0, e.1 = LF → T[e.2 - 0]? = some LF := by
-    intro e he hl
-    unfold noNewlineUCN convertUCN at h
-    have := List.all_eq_true.1 h e he
-    simp [hl] at this
-    simpa using this
+  have hLF : ∀ e ∈ convertUCNAux (T.length + 1) T 0, e.1 = LF → T[e.2 - 0]? = some LF :=
+    fun e he hl => convertUCNAux_copies _ _ _ e he hl
   have := (convertUCNAux_lines (T.length + 1) T 0 hLF k e hk).2
   simpa [convertUniversalChars, convertUCN] using this
 
